@@ -280,3 +280,45 @@ func C04(c *core.Ctx) {
 	c.Rep.Scenarios++
 	c.Rep.Sample(map[string]interface{}{"class": "corpus", "packets": len(corpus()), "example": corpus()[3].String(), "wire": hexs(refcodec.Encode(corpus()[3]))})
 }
+
+// HostileStreams returns byte strings for the hostile-client checks: the valid
+// corpus, every truncation of each packet and single-byte corruptions of the
+// length and flag fields.
+func HostileStreams(thorough bool) [][]byte {
+	var out [][]byte
+	seen := map[string]bool{}
+	add := func(b []byte) {
+		if !seen[string(b)] {
+			seen[string(b)] = true
+			out = append(out, append([]byte(nil), b...))
+		}
+	}
+	for _, p := range corpus() {
+		wire := refcodec.Encode(p)
+		if len(wire) > 120 {
+			continue
+		}
+		add(wire)
+		step := 1
+		if !thorough && len(wire) > 12 {
+			step = 3
+		}
+		for cut := 1; cut < len(wire); cut += step {
+			add(wire[:cut])
+		}
+		lim := len(wire)
+		if lim > 8 && !thorough {
+			lim = 8
+		}
+		for pos := 0; pos < lim; pos++ {
+			for _, v := range []byte{0x00, 0x7f, 0x80, 0xff, wire[pos] ^ 0x01, wire[pos] ^ 0x10} {
+				if v != wire[pos] {
+					m := append([]byte(nil), wire...)
+					m[pos] = v
+					add(m)
+				}
+			}
+		}
+	}
+	return out
+}
